@@ -42,6 +42,10 @@ pub trait SeqOps {
     fn mask(&self, i: usize, ctx: Ctx) -> Vec<bool>;
     /// Serialize a lying iterator over value i announcing `announce` items.
     fn liar(&self, i: usize, announce: usize, ctx: Ctx) -> Out<usize>;
+    /// Number of bytes that `Vec<T>::deserialize_full` consumes from `bytes`.
+    fn full_consumed(&self, bytes: &[u8]) -> Out<usize>;
+    /// Standalone stream of a lying iterator over value i announcing `announce` items.
+    fn liar_stream(&self, i: usize, announce: usize) -> (Out<usize>, Vec<u8>);
     /// (label, header hashes of a type mentioning the slice / iterator wrapper, header hashes
     /// of the same type with the vector in its place)
     fn wrapper_hashes(&self) -> Vec<(&'static str, (u64, u64), (u64, u64))>;
@@ -184,6 +188,17 @@ macro_rules! seq_ops {
                 let mut sink: Vec<u8> = Vec::new();
                 o3(guarded(|| ser_ctx!(SerIter::from(Liar { inner: v.iter(), announce }), ctx, &mut sink).map_err(|e| format!("{:?}", e))))
             }
+            fn full_consumed(&self, bytes: &[u8]) -> Out<usize> {
+                let mut cur = std::io::Cursor::new(bytes);
+                o3(guarded(|| { <Vec<$t>>::deserialize_full(&mut cur).map_err(|e| err_kind(&e))?; Ok(cur.position() as usize) }))
+            }
+            fn liar_stream(&self, i: usize, announce: usize) -> (Out<usize>, Vec<u8>) {
+                let vals = self.0.borrow();
+                let v: &Vec<$t> = &vals[i];
+                let mut sink: Vec<u8> = Vec::new();
+                let r = o3(guarded(|| SerIter::from(Liar { inner: v.iter(), announce }).serialize(&mut sink).map_err(|e| format!("{:?}", e))));
+                (r, sink)
+            }
             fn wrapper_hashes(&self) -> Vec<(&'static str, (u64, u64), (u64, u64))> {
                 let mut v = common_wrappers!($t);
                 v.push(("SerIter<T, slice::Iter> / Vec<T>", hp::<SerIter<'static, $t, std::slice::Iter<'static, $t>>>(), hp::<Vec<$t>>()));
@@ -233,6 +248,11 @@ macro_rules! seq_ops {
                 }
             }
             fn liar(&self, _i: usize, _announce: usize, _ctx: Ctx) -> Out<usize> { unreachable!() }
+            fn full_consumed(&self, bytes: &[u8]) -> Out<usize> {
+                let mut cur = std::io::Cursor::new(bytes);
+                o3(guarded(|| { <Vec<$t>>::deserialize_full(&mut cur).map_err(|e| err_kind(&e))?; Ok(cur.position() as usize) }))
+            }
+            fn liar_stream(&self, _i: usize, _announce: usize) -> (Out<usize>, Vec<u8>) { unreachable!() }
             fn wrapper_hashes(&self) -> Vec<(&'static str, (u64, u64), (u64, u64))> { common_wrappers!($t) }
             fn nested_slices(&self, i: usize) -> Out<(Val, Val, [u8; 16], [u8; 16])> { let vals = self.0.borrow(); nested_slices!($t, &vals[i]) }
         }
@@ -253,7 +273,7 @@ registry! {
     S_i8: i8: zero, S_i64: i64: zero, S_f32: f32: zero, S_f64: f64: zero, S_bool: bool: zero, S_char: char: zero,
     S_nz16: NonZeroU16: zero, S_nz64: NonZeroI64: zero, S_unit: (): zero,
     S_P1: P1: zero, S_Z0: Z0: zero, S_Z16: Z16: zero, S_P64: P64: zero, S_NT: NT: zero, S_T3: T3: zero, S_ZN: ZN: zero, S_EZ: EZ: zero, S_EU: EU: zero,
-    S_tup: (u16, u16): zero, S_arr: [u32; 3]: zero, S_arr0: [u64; 0]: zero, S_rt: RangeTo<u8>: zero, S_rt3: RangeTo<T3>: zero, S_rti6: core::ops::RangeToInclusive<[u16; 3]>: zero, S_zg: ZG<u32>: zero, S_za: ZA: zero,
+    S_tup: (u16, u16): zero, S_arr: [u32; 3]: zero, S_arr0: [u64; 0]: zero, S_rt: RangeTo<u8>: zero, S_rt3: RangeTo<T3>: zero, S_rti6: core::ops::RangeToInclusive<[u16; 3]>: zero, S_zg: ZG<u32>: zero, S_za: ZA: zero, S_trt3: (RangeTo<T3>,): zero, S_art3: [RangeTo<T3>; 1]: zero, S_trt3x2: (RangeTo<T3>, RangeTo<T3>): zero,
     S_String: String: deep, S_BoxStr: Box<str>: deep, S_VecU8: Vec<u8>: deep, S_VecStr: Vec<String>: deep, S_D1: D1: deep, S_E1: E1: deep,
     S_OptU32: Option<u32>: deep, S_G1: G1<Vec<u8>>: deep, S_ArrS: [String; 2]: deep,
 }
@@ -306,6 +326,39 @@ pub fn borrowed_faults(ops: &dyn SeqOps, cx: &mut Cx, i: usize, want: &Val, srcs
                 }
             }
         }
+}
+
+/// The C07 part over the sequence wrappers (the universe of the runner holds owned values
+/// only): the count returned for a slice reference or an exact-size iterator is the number of
+/// bytes the sink received, and the vector deserializer consumes exactly that many — also for
+/// the stream of an iterator that yields another number of items than it announced, should
+/// serialization have accepted it.
+pub fn c07_wrappers(ops: &dyn SeqOps, cx: &mut Cx) {
+    let n = ops.build(cx.tier.pick(30, 200));
+    let srcs: Vec<Src> = if ops.has_iter() { vec![Src::Slice, Src::Iter] } else { vec![Src::Slice] };
+    for i in 0..n {
+        let want = ops.val(i);
+        cx.case(vcore::cx::hash64(&[cx.type_id.as_bytes(), format!("{:?}", want).as_bytes()]), true);
+        let mut streams: Vec<(String, Out<usize>, Vec<u8>)> = srcs.iter().map(|s| { let (r, b) = sink_all(ops, i, *s, Ctx::Alone); (format!("{:?}", s), r, b) }).collect();
+        if ops.has_iter() {
+            let len = match &want { Val::Seq(v) => v.len(), _ => 0 };
+            for a in 0..=4usize { if a != len { let (r, b) = ops.liar_stream(i, a); streams.push((format!("iterator announcing {} yielding {}", a, len), r, b)); } }
+        }
+        for (what, r, b) in streams {
+            cx.evals += 1;
+            cx.transitions += 1;
+            let Out::Ok(cnt) = r else { cx.outcome("wrapper-not-serialized"); continue };
+            if cnt != b.len() { cx.violate("wrapper-count-differs-from-bytes-received", json!({"value": vdesc(i, &want), "source": what, "returned": cnt, "sink_received": b.len()})); continue; }
+            let mut ext = b.clone();
+            ext.extend_from_slice(&[0x5A; 40]);
+            match ops.full_consumed(&ext) {
+                Out::Ok(c) if c == cnt => cx.outcome("wrapper-stream-consumed-exactly"),
+                Out::Ok(c) => cx.violate("wrapper-stream-not-consumed-exactly", json!({"value": vdesc(i, &want), "source": what, "written": cnt, "consumed": c})),
+                o => cx.violate(&format!("wrapper-stream-full-{}", o.class()), json!({"value": vdesc(i, &want), "source": what, "written": cnt, "observed": o.describe()})),
+            }
+        }
+        if i == 1 { cx.sample(json!({"wrappers_over": cx.type_id, "items": format!("{:?}", want)})); }
+    }
 }
 
 /// The C13 part over borrowed sources (the universe of the runner holds owned values only).
